@@ -36,6 +36,8 @@ def spec_function(model: Model, source: str, module: str, cls: Optional[str] = N
             sub = FuncInfo(q, x.name, x, mi, None, fi)
             x._finfo = sub  # type: ignore
             model.__dict__.setdefault("_extra_funcs", {})[q.replace(":", ".")] = sub
+            # (the name under which Model.resolve_dotted reports a definition nested in this function)
+            model.__dict__["_extra_funcs"][f"{fi.qual}.{x.name}".replace(":", ".")] = sub
             continue
         if isinstance(x, (ast.ClassDef, ast.Lambda)):
             continue
